@@ -8,6 +8,16 @@ VF_NOTE = ("Trusted: Coq kernel, extraction, harness/vf.c (page table and refere
            "The byte-level page search/bisection is abstracted to its result on the page table (validated by the tie on every run, not proved). "
            "Print Assumptions: closed under the global context.")
 CHECKS = {
+ "C13": {
+  "category": "proof",
+  "text": "Proved (Ledger.v, all call sequences): the close callback runs exactly once per source the library came to own, only in ov_clear, never after a failed "
+          "open; clearing twice is clearing once. Heap ownership inside the C code (which allocation each clear releases, on which error exit) is not in any model: "
+          "it is decided per run by leak-checking (LeakSanitizer recoverable check) and double-free detection (ASan) after each of ~2000+ scenarios: every encoder template "
+          "family and rejected arguments at every set-up stage, decoder header prefixes and corrupted headers, failing opens at callback k, mutated files, failing seeks; "
+          "clears are issued twice.",
+  "note": "Trusted: Coq kernel; harness/c13.c; ASan/LSan. The leak accounting is the deciding part for the heap clauses and is an enumeration, not a theorem.",
+  "technique": "Coq proof (ownership automaton) + per-scenario leak/double-free accounting",
+ },
  "C03": {
   "category": "proof",
   "text": "Proved for ARBITRARY page tables, granule positions and states: the packet/page loops of the read path terminate within the fuel the model computes "
